@@ -1,6 +1,7 @@
 //! Verification hooks (only with `--cfg bp7_verif`): clock override and scheduler yield points.
 use std::cell::{Cell, RefCell};
 use std::sync::atomic::{AtomicU64, AtomicUsize as RealAtomicUsize, Ordering};
+use std::sync::{LockResult, Mutex as RealMutex, MutexGuard, TryLockError};
 
 static CLOCK_MS: AtomicU64 = AtomicU64::new(u64::MAX);
 thread_local! {
@@ -52,5 +53,23 @@ impl AtomicUsize {
     pub fn fetch_add(&self, v: usize, o: Ordering) -> usize {
         yield_point("fetch_add");
         self.0.fetch_add(v, o)
+    }
+}
+/// Drop-in for `std::sync::Mutex` whose `lock` yields to the scheduler before every attempt to take
+/// the lock: a thread that finds the lock taken consumes scheduler steps as no-ops instead of blocking.
+pub struct Mutex<T>(RealMutex<T>);
+impl<T> Mutex<T> {
+    pub const fn new(v: T) -> Self {
+        Mutex(RealMutex::new(v))
+    }
+    pub fn lock(&self) -> LockResult<MutexGuard<'_, T>> {
+        loop {
+            yield_point("lock");
+            match self.0.try_lock() {
+                Ok(g) => return Ok(g),
+                Err(TryLockError::Poisoned(e)) => return Err(e),
+                Err(TryLockError::WouldBlock) => {}
+            }
+        }
     }
 }
